@@ -240,6 +240,11 @@ def run(ck):
             d2["events"].append(dict(rate="%s*%s" % (p0, s0), kind="linear", trans=[dict(ty="D", o=0, d=None, mag="2")]))
             dist["grown-after-evaluation"] += 1
             try:
+                # (its numeric evaluators have been used, i.e. compiled, before it grows; the explicit-ODE model that is built and
+                #  evaluated next is a SECOND model in the same process)
+                ref[2].parameters = {p_: float(pt[p_]) for p_ in d["params"]}
+                x_ = np.array([float(pt[s_]) for s_ in d["states"]])
+                ref[2].ode(x_, float(pt["t"])); ref[2].jacobian(x_, float(pt["t"]))
                 tr = pg.Transition(origin=s0, transition_type="D", magnitude="2")
                 if k % 2:
                     ref[2].add_event(pg.Event(rate="%s*%s" % (p0, s0), transition_list=[tr]))
